@@ -80,7 +80,7 @@ def failing_generated_labels(pid):
         return []
     cq = os.path.join(VERIF, 'coq')
     tmp = os.path.join(workdir(), 'labels_query.v')
-    open(tmp, 'w').write('Require Import CMP.Refine. Require Import String List.\nEval vm_compute in %s.\n' % q)
+    open(tmp, 'w').write('Require Import CMP.Refine. Require Import String List.\nEval vm_compute in %s.\nEval vm_compute in map (fun w => (append \"wrapper no longer forwards to the header accessor: \" (fst (fst w)))) Refine.bad_wrappers.\n' % q)
     r = sh('timeout 600 coqc -Q theories CMP -Q gen CMPGen %s' % tmp, cwd=cq, timeout=700)
     return re.findall(r'"((?:[^"]|"")*)"%string', r.stdout)
 
